@@ -2989,12 +2989,29 @@ class Parameters:
             self_._events = []
             self_._state_watchers = []
 
+            # A depends(watch=True) method may be served by several internal
+            # watchers (one per kind of thing it depends on: values,
+            # Parameter attributes, sub-object paths); one batch that changes
+            # several of them still runs the method once.
+            ran = []
             try:
                 for watcher in sorted(watchers, key=lambda w: w.precedence):
                     events = [self_._update_event_type(watcher, event_dict[(name, watcher.what)],
                                                        self_._is_triggered(event_dict[(name, watcher.what)]))
                               for name in watcher.parameter_names
                               if (name, watcher.what) in event_dict]
+                    fn = watcher.fn
+                    if isinstance(fn, partial) and fn.func in (_sync_caller, _async_caller):
+                        method = fn.keywords['function']
+                        if any(method == m for m in ran):
+                            # only what else this watcher is there for
+                            # (setting up sub-object dependencies again)
+                            if fn.keywords.get('callback'):
+                                fn.keywords['callback'](*events)
+                            continue
+                        if not _skip_event(*events, what=fn.keywords.get('what', 'value'),
+                                           changed=fn.keywords.get('changed')):
+                            ran.append(method)
                     with _batch_call_watchers(self_.self_or_cls, enable=watcher.queued, run=False):
                         self_._execute_watcher(watcher, events)
             except Exception:
